@@ -1,336 +1,57 @@
-From Coq Require Import List Arith Bool Lia.
-From OsmtV.Stack Require Import FramesModel.
+From Coq Require Import List Arith Lia.
+From OsmtV.Term Require Import MeasureModel.
 Import ListNotations.
 
-Ltac spl := repeat match goal with |- _ /\ _ => split end.
+Lemma pow3_pos m : 0 < 3 ^ m.
+Proof. induction m; simpl; lia. Qed.
 
-Section Proofs.
-  Variable F : Type.
-  Variable sat : list F -> Prop.
-  Hypothesis sat_mono : forall A B, incl A B -> sat B -> sat A.
+Lemma mu_bound n : forall tr, length tr <= n -> mu n tr < 3 ^ n.
+Proof.
+  induction n as [|m IH]; intros [|d r] H; simpl in *; try lia.
+  - pose proof (pow3_pos m). lia.
+  - specialize (IH r ltac:(lia)). destruct d; simpl; lia.
+Qed.
 
-  Variable engine : list (list F) -> eresult.
-  Variable early : list (list F) -> bool.
-  Hypothesis engine_sat : forall gs, engine gs = ESat -> sat (concat gs).
-  Hypothesis engine_unsat : forall gs k, engine gs = EUnsat k -> k < length gs /\ ~ sat (concat (firstn (S k) gs)).
-  Hypothesis early_sound : forall gs, early gs = true -> ~ sat (concat gs).
+Lemma mu_app_snoc n : forall tr d, length tr < n -> mu n tr < mu n (tr ++ [d]).
+Proof.
+  induction n as [|m IH]; intros [|x r] d H; simpl in *; try lia.
+  - pose proof (pow3_pos m). destruct d; simpl; lia.
+  - specialize (IH r d ltac:(lia)). lia.
+Qed.
 
-  Notation st := (st F).
-  Notation frame := (frame F).
+Lemma mu_backjump n : forall pre suf, length (pre ++ D :: suf) <= n -> mu n (pre ++ D :: suf) < mu n (pre ++ [P]).
+Proof.
+  induction n as [|m IH]; intros [|x r] suf H; simpl in *; try lia.
+  - pose proof (mu_bound m suf ltac:(lia)). destruct m; simpl in *; lia.
+  - specialize (IH r suf ltac:(lia)). lia.
+Qed.
 
-  Definition prefix_fml (fs : list frame) (i : nat) : list F := concat (map (@fml F) (firstn (S i) fs)).
+Lemma step_mu n a b : step n a b -> mu n a < mu n b.
+Proof. intros [tr H|tr H|pre suf H]; [apply mu_app_snoc | apply mu_app_snoc | apply mu_backjump]; assumption. Qed.
 
-  Record Inv (s : st) : Prop := {
-    inv_ne : frames s <> [];
-    inv_fns : fns s <= length (frames s);
-    inv_nodup : NoDup (map (@fid F) (frames s));
-    inv_ids : forall fr, In fr (frames s) -> fid fr < next_id s;
-    inv_gids : forall p, In p (given s) -> fst p < next_id s;
-    inv_given : forall i fr, i < fns s -> nth_error (frames s) i = Some fr ->
-                             incl (fml fr) (given_of (given s) (fid fr));
-    inv_live : forall fr, In fr (frames s) -> incl (given_of (given s) (fid fr)) (fml fr);
-    inv_flag : forall i fr, nth_error (frames s) i = Some fr -> funsat fr = true -> ~ sat (prefix_fml (frames s) i)
-  }.
+Lemma step_length n a b : length a <= n -> step n a b -> length b <= n.
+Proof.
+  intros Ha [tr H|tr H|pre suf H]; rewrite ?app_length in *; simpl in *; lia.
+Qed.
 
-  (* ---------- list helpers ---------- *)
-  Lemma given_of_app (g1 g2 : list (nat * F)) id : given_of (g1 ++ g2) id = given_of g1 id ++ given_of g2 id.
-  Proof. unfold given_of. now rewrite filter_app, map_app. Qed.
+Lemma chain_mu n a c k : chain n a c k -> mu n a + k <= mu n c.
+Proof. induction 1 as [tr|a b c k Hs Hc IH]; [lia|]. pose proof (step_mu n a b Hs). lia. Qed.
 
-  Lemma given_of_map_same id (l : list F) : given_of (map (fun f => (id, f)) l) id = l.
-  Proof.
-    unfold given_of. induction l as [|a r IH]; simpl; [reflexivity|].
-    rewrite Nat.eqb_refl. simpl. now rewrite IH.
-  Qed.
+Lemma chain_length n a c k : length a <= n -> chain n a c k -> length c <= n.
+Proof. intros Ha H. induction H as [tr|a b c k Hs Hc IH]; [exact Ha|]. apply IH. eapply step_length; eauto. Qed.
 
-  Lemma given_of_map_other id id' (l : list F) : id <> id' -> given_of (map (fun f => (id, f)) l) id' = [].
-  Proof.
-    intros H. unfold given_of. induction l as [|a r IH]; simpl; [reflexivity|].
-    destruct (Nat.eqb_spec id id'); [contradiction | exact IH].
-  Qed.
+(* every restart-free segment over n variables has fewer than 3^n steps *)
+Theorem segment_bounded_lemma n a c k : length a <= n -> chain n a c k -> k < 3 ^ n.
+Proof.
+  intros Ha H. pose proof (chain_mu n a c k H). pose proof (mu_bound n c (chain_length n a c k Ha H)). lia.
+Qed.
 
-  Lemma given_of_none (g : list (nat * F)) id : (forall p, In p g -> fst p <> id) -> given_of g id = [].
-  Proof.
-    intros H. unfold given_of. induction g as [|p r IH]; simpl; [reflexivity|].
-    destruct (Nat.eqb_spec (fst p) id) as [E|E]; [exfalso; apply (H p); simpl; auto|].
-    apply IH. intros q Hq. apply H. simpl; auto.
-  Qed.
-
-  Lemma snoc_cases {A} (l : list A) : l = [] \/ exists l' a, l = l' ++ [a].
-  Proof. destruct (rev l) as [|a r] eqn:E.
-    - left. apply (f_equal (@rev A)) in E. now rewrite rev_involutive in E.
-    - right. exists (rev r), a. apply (f_equal (@rev A)) in E. rewrite rev_involutive in E. exact E.
-  Qed.
-
-  Lemma last_unsat_snoc (s : st) l a : frames s = l ++ [a] -> last_unsat s = funsat a.
-  Proof. intros E. unfold last_unsat. now rewrite E, rev_app_distr. Qed.
-
-  Lemma concat_incl_map (fs : list frame) (g : frame -> list F) :
-    (forall fr, In fr fs -> incl (g fr) (fml fr)) -> incl (concat (map g fs)) (concat (map (@fml F) fs)).
-  Proof.
-    induction fs as [|a r IH]; simpl; intros H; [apply incl_refl|].
-    apply incl_app; [apply incl_appl, H; simpl; auto | apply incl_appr, IH; intros; apply H; simpl; auto].
-  Qed.
-  Lemma concat_incl_map' (fs : list frame) (g : frame -> list F) :
-    (forall fr, In fr fs -> incl (fml fr) (g fr)) -> incl (concat (map (@fml F) fs)) (concat (map g fs)).
-  Proof.
-    induction fs as [|a r IH]; simpl; intros H; [apply incl_refl|].
-    apply incl_app; [apply incl_appl, H; simpl; auto | apply incl_appr, IH; intros; apply H; simpl; auto].
-  Qed.
-
-  Lemma firstn_In {A} n (l : list A) x : In x (firstn n l) -> In x l.
-  Proof. revert l; induction n; intros [|a r]; simpl; try tauto. intros [H|H]; auto. Qed.
-
-  Lemma prefix_incl_all (fs : list frame) i : incl (prefix_fml fs i) (concat (map (@fml F) fs)).
-  Proof.
-    unfold prefix_fml. rewrite <- (firstn_skipn (S i) fs) at 2. rewrite map_app, concat_app. apply incl_appl, incl_refl.
-  Qed.
-
-  Lemma prefix_mono (fs : list frame) i j : i <= j -> incl (prefix_fml fs i) (prefix_fml fs j).
-  Proof.
-    intros H. unfold prefix_fml. replace (S j) with (S i + (j - i)) by lia.
-    revert fs. generalize (S i) as n. generalize (j - i) as d. clear.
-    intros d n. induction n as [|n IH]; intros fs; simpl; [apply incl_nil_l|].
-    destruct fs as [|a r]; simpl; [apply incl_refl|]. apply incl_app; [apply incl_appl, incl_refl | apply incl_appr, IH].
-  Qed.
-
-  (* ---------- mark_from ---------- *)
-  Lemma mark_from_fid k (fs : list frame) : map (@fid F) (mark_from k fs) = map (@fid F) fs.
-  Proof. revert k; induction fs as [|a r IH]; intros [|k]; simpl; f_equal; auto. Qed.
-  Lemma mark_from_fml k (fs : list frame) : map (@fml F) (mark_from k fs) = map (@fml F) fs.
-  Proof. revert k; induction fs as [|a r IH]; intros [|k]; simpl; f_equal; auto. Qed.
-  Lemma mark_from_length k (fs : list frame) : length (mark_from k fs) = length fs.
-  Proof. rewrite <- (map_length (@fid F)), mark_from_fid. apply map_length. Qed.
-
-  Lemma mark_from_nth k (fs : list frame) i fr' :
-    nth_error (mark_from k fs) i = Some fr' ->
-    exists fr, nth_error fs i = Some fr /\ fid fr' = fid fr /\ fml fr' = fml fr /\ (funsat fr' = true -> k <= i \/ funsat fr = true).
-  Proof.
-    revert k i; induction fs as [|a r IH]; intros k i; [destruct k, i; simpl; discriminate|].
-    destruct k as [|k], i as [|i]; simpl.
-    - intros [= <-]. exists a. simpl. repeat split; auto; try (intros _; left; lia).
-    - intros H. destruct (IH 0 i H) as [fr [H1 [H2 [H3 H4]]]]. exists fr. repeat split; auto; try (intros _; left; lia).
-    - intros [= <-]. exists a. repeat split; auto.
-    - intros H. destruct (IH k i H) as [fr [H1 [H2 [H3 H4]]]]. exists fr. repeat split; auto.
-      intros Hf. destruct (H4 Hf); [left; lia | right; auto].
-  Qed.
-
-  Lemma prefix_fml_ext (fs fs' : list frame) i : map (@fml F) fs = map (@fml F) fs' -> prefix_fml fs i = prefix_fml fs' i.
-  Proof. intros H. unfold prefix_fml. rewrite <- !firstn_map. now rewrite H. Qed.
-
-  Lemma In_map_fid (fs fs' : list frame) fr : map (@fid F) fs = map (@fid F) fs' -> In fr fs -> exists fr', In fr' fs' /\ fid fr' = fid fr.
-  Proof.
-    intros H Hin. assert (Hi : In (fid fr) (map (@fid F) fs')) by (rewrite <- H; now apply in_map).
-    apply in_map_iff in Hi as [fr' [E Hin']]. eauto.
-  Qed.
-
-  (* marking frames k.. as unsat preserves the invariant when the prefix up to k is unsatisfiable *)
-  Lemma inv_mark (s : st) k :
-    Inv s -> ~ sat (prefix_fml (frames s) k) ->
-    Inv {| frames := mark_from k (frames s); fns := fns s; next_id := next_id s; given := given s; inserted := inserted s |}.
-  Proof.
-    intros I Hk. destruct I as [I1 I2 I3 I4 I5 I6 I7 I8]. constructor; simpl.
-    - intros E. apply (f_equal (@length frame)) in E. rewrite mark_from_length in E. destruct (frames s); [congruence | discriminate].
-    - now rewrite mark_from_length.
-    - now rewrite mark_from_fid.
-    - intros fr' Hin. apply In_nth_error in Hin as [i Hi]. destruct (mark_from_nth _ _ _ _ Hi) as [fr [H1 [H2 _]]].
-      rewrite H2. apply I4. eapply nth_error_In; eauto.
-    - exact I5.
-    - intros i fr' Hi Hn. destruct (mark_from_nth _ _ _ _ Hn) as [fr [H1 [H2 [H3 _]]]]. rewrite H2, H3. eapply I6; eauto.
-    - intros fr' Hin. apply In_nth_error in Hin as [i Hi]. destruct (mark_from_nth _ _ _ _ Hi) as [fr [H1 [H2 [H3 _]]]].
-      rewrite H2, H3. apply I7. eapply nth_error_In; eauto.
-    - intros i fr' Hn Hf. destruct (mark_from_nth _ _ _ _ Hn) as [fr [H1 [H2 [H3 H4]]]].
-      rewrite (prefix_fml_ext _ (frames s)) by apply mark_from_fml.
-      destruct (H4 Hf) as [Hle|Hold].
-      + intros Hs. apply Hk. eapply sat_mono; [apply (prefix_mono _ k i Hle) | exact Hs].
-      + eapply I8; eauto.
-  Qed.
-
-  (* ---------- init / push / pop / insert ---------- *)
-  Lemma inv_init : Inv init.
-  Proof.
-    constructor; simpl; try lia; try discriminate.
-    - constructor; [simpl; tauto | constructor].
-    - intros fr [<-|[]]. simpl. lia.
-    - intros fr [<-|[]]. simpl. apply incl_refl.
-    - intros [|[|i]] fr; simpl; try discriminate. intros [= <-]. simpl. discriminate.
-  Qed.
-
-  Lemma nth_error_snoc {A} (l : list A) a i x :
-    nth_error (l ++ [a]) i = Some x -> (i < length l /\ nth_error l i = Some x) \/ (i = length l /\ x = a).
-  Proof.
-    intros H. destruct (Nat.lt_ge_cases i (length l)) as [Hl|Hl].
-    - left. split; [exact Hl|]. now rewrite nth_error_app1 in H.
-    - right. rewrite nth_error_app2 in H by exact Hl.
-      destruct (i - length l) as [|d] eqn:E; simpl in H; [injection H as <-; split; [lia | reflexivity]|].
-      destruct d; discriminate.
-  Qed.
-
-  Lemma prefix_fml_snoc_lt (l : list frame) a i : i < length l -> prefix_fml (l ++ [a]) i = prefix_fml l i.
-  Proof. intros H. unfold prefix_fml. rewrite firstn_app. replace (S i - length l) with 0 by lia. simpl. now rewrite app_nil_r. Qed.
-
-  Lemma prefix_fml_last_empty (l : list frame) a :
-    l <> [] -> fml a = [] -> incl (prefix_fml (l ++ [a]) (length l)) (prefix_fml l (length l - 1)).
-  Proof.
-    intros Hne Ha. unfold prefix_fml.
-    rewrite firstn_all2 by (rewrite app_length; simpl; lia).
-    rewrite firstn_all2 by (destruct l; [congruence | simpl; lia]).
-    rewrite map_app, concat_app. simpl. rewrite Ha. simpl. rewrite app_nil_r. apply incl_refl.
-  Qed.
-
-  Lemma NoDup_app_snoc {A} (l : list A) a : NoDup l -> ~ In a l -> NoDup (l ++ [a]).
-  Proof.
-    induction l as [|x r IH]; simpl; intros Hn Hi; [constructor; [simpl; tauto | constructor]|].
-    inversion Hn; subst. constructor.
-    - intros Hin. apply in_app_or in Hin as [Hin|[->|[]]]; [contradiction | apply Hi; auto].
-    - apply IH; [assumption | intros Hin; apply Hi; auto].
-  Qed.
-
-  Lemma inv_push (s : st) : Inv s -> Inv (push s).
-  Proof.
-    intros I. destruct I as [I1 I2 I3 I4 I5 I6 I7 I8].
-    destruct (snoc_cases (frames s)) as [E|[l [a E]]]; [contradiction|].
-    constructor; unfold push; simpl.
-    - intros H. apply app_eq_nil in H as [_ H]. discriminate.
-    - rewrite app_length. simpl. lia.
-    - rewrite map_app. simpl. apply NoDup_app_snoc; [exact I3|].
-      intros Hin. apply in_map_iff in Hin as [fr [Hid Hin]]. specialize (I4 fr Hin). lia.
-    - intros fr Hin. apply in_app_or in Hin as [Hin|[<-|[]]]; [specialize (I4 fr Hin); lia | simpl; lia].
-    - intros p Hin. specialize (I5 p Hin). lia.
-    - intros i fr Hi Hn. apply nth_error_snoc in Hn as [[Hl Hn]|[Hl ->]]; [eapply I6; eauto|]. lia.
-    - intros fr Hin. apply in_app_or in Hin as [Hin|[<-|[]]]; [apply I7; exact Hin|].
-      simpl. rewrite given_of_none; [apply incl_refl|]. intros p Hp. specialize (I5 p Hp). lia.
-    - intros i fr Hn Hf. apply nth_error_snoc in Hn as [[Hl Hn]|[Hl ->]].
-      + rewrite prefix_fml_snoc_lt by exact Hl. eapply I8; eauto.
-      + simpl in Hf. rewrite (last_unsat_snoc s l a E) in Hf. subst i.
-        intros Hs. rewrite E in I8.
-        apply (I8 (length l) a).
-        * rewrite nth_error_app2 by lia. now rewrite Nat.sub_diag.
-        * exact Hf.
-        * eapply sat_mono; [|exact Hs]. rewrite <- E.
-          unfold prefix_fml. rewrite firstn_all2 by (rewrite E, app_length; simpl; lia).
-          rewrite firstn_all2 by (rewrite app_length; simpl; lia).
-          rewrite map_app, concat_app. apply incl_appl, incl_refl.
-  Qed.
-
-  Lemma pop_spec (s s' : st) : pop s = Some s' ->
-    exists l a, frames s = l ++ [a] /\ l <> [] /\ frames s' = l /\ fns s' = Nat.min (fns s) (length l) /\
-                next_id s' = next_id s /\ given s' = given s.
-  Proof.
-    unfold pop. destruct (rev (frames s)) as [|a [|b r]] eqn:E; try discriminate.
-    intros [= <-]. simpl. exists (rev (b :: r)), a. repeat split; auto.
-    - apply (f_equal (@rev frame)) in E. rewrite rev_involutive in E. simpl in E. simpl. exact E.
-    - simpl. intros H. apply app_eq_nil in H as [_ H]. discriminate.
-  Qed.
-
-  Lemma NoDup_app_l {A} (l1 l2 : list A) : NoDup (l1 ++ l2) -> NoDup l1.
-  Proof. induction l1 as [|x r IH]; simpl; intros H; [constructor|]. inversion H; subst. constructor; [intros Hi; apply H2, in_or_app; auto | auto]. Qed.
-
-  Lemma inv_pop (s s' : st) : Inv s -> pop s = Some s' -> Inv s'.
-  Proof.
-    intros I Hp. destruct I as [I1 I2 I3 I4 I5 I6 I7 I8].
-    destruct (pop_spec s s' Hp) as [l [a [E [Hne [E' [Ef [En Eg]]]]]]].
-    constructor; rewrite ?E', ?Ef, ?En, ?Eg.
-    - exact Hne.
-    - lia.
-    - rewrite E, map_app in I3. eapply NoDup_app_l; eauto.
-    - intros fr Hin. apply I4. rewrite E. apply in_or_app; auto.
-    - exact I5.
-    - intros i fr Hi Hn. apply (I6 i fr); [lia|]. rewrite E, nth_error_app1; [exact Hn|]. apply nth_error_Some. congruence.
-    - intros fr Hin. apply I7. rewrite E. apply in_or_app; auto.
-    - intros i fr Hn Hf. assert (Hl : i < length l) by (apply nth_error_Some; congruence).
-      rewrite <- (prefix_fml_snoc_lt l a i Hl). rewrite <- E. apply (I8 i fr); [|exact Hf].
-      rewrite E, nth_error_app1; auto.
-  Qed.
-
-  Lemma add_last_snoc (l : list frame) a f :
-    add_last f (l ++ [a]) = l ++ [{| fid := fid a; fml := fml a ++ [f]; funsat := funsat a |}].
-  Proof. unfold add_last. rewrite rev_app_distr. simpl. now rewrite rev_involutive. Qed.
-
-  Lemma inv_insert (s : st) f : Inv s -> Inv (insert f s).
-  Proof.
-    intros I. destruct I as [I1 I2 I3 I4 I5 I6 I7 I8].
-    destruct (snoc_cases (frames s)) as [E|[l [a E]]]; [contradiction|].
-    set (a' := {| fid := fid a; fml := fml a ++ [f]; funsat := funsat a |}).
-    assert (Ef : frames (insert f s) = l ++ [a']) by (unfold insert; simpl; rewrite E; apply add_last_snoc).
-    assert (El : length (frames s) - 1 = length l) by (rewrite E, app_length; simpl; lia).
-    constructor; rewrite ?Ef; try unfold insert; simpl; rewrite ?El.
-    - intros H. apply app_eq_nil in H as [_ H]. discriminate.
-    - rewrite app_length. simpl. lia.
-    - rewrite E in I3. rewrite map_app in *. exact I3.
-    - intros fr Hin. apply in_app_or in Hin as [Hin|[<-|[]]].
-      + apply I4. rewrite E. apply in_or_app; auto.
-      + simpl. apply (I4 a). rewrite E. apply in_or_app; simpl; auto.
-    - exact I5.
-    - intros i fr Hi Hn. apply nth_error_snoc in Hn as [[Hl Hn]|[Hl ->]]; [|lia].
-      apply (I6 i fr); [lia|]. rewrite E, nth_error_app1; auto.
-    - intros fr Hin. apply in_app_or in Hin as [Hin|[<-|[]]].
-      + apply I7. rewrite E. apply in_or_app; auto.
-      + simpl. apply incl_appl. apply (I7 a). rewrite E. apply in_or_app; simpl; auto.
-    - intros i fr Hn Hf. apply nth_error_snoc in Hn as [[Hl Hn]|[Hl ->]].
-      + rewrite prefix_fml_snoc_lt by exact Hl. rewrite <- (prefix_fml_snoc_lt l a i Hl), <- E.
-        apply (I8 i fr); [|exact Hf]. rewrite E, nth_error_app1; auto.
-      + simpl in Hf. intros Hs. apply (I8 (length l) a).
-        * rewrite E, nth_error_app2 by lia. now rewrite Nat.sub_diag.
-        * exact Hf.
-        * eapply sat_mono; [|exact Hs]. subst i. rewrite E. unfold prefix_fml.
-          rewrite !firstn_all2 by (rewrite app_length; simpl; lia).
-          rewrite !map_app, !concat_app. simpl. rewrite !app_nil_r.
-          apply incl_app; [apply incl_appl, incl_refl | apply incl_appr, incl_appl, incl_refl].
-  Qed.
-
-  (* ---------- simplify ---------- *)
-  Lemma fid_inj (l : list frame) a b : NoDup (map (@fid F) l) -> In a l -> In b l -> fid a = fid b -> a = b.
-  Proof.
-    induction l as [|x r IH]; simpl; intros Hn Ha Hb E; [contradiction|].
-    inversion Hn as [|? ? Hx Hr]; subst.
-    destruct Ha as [->|Ha], Hb as [->|Hb]; auto.
-    - exfalso. apply Hx. rewrite E. now apply in_map.
-    - exfalso. apply Hx. rewrite <- E. now apply in_map.
-  Qed.
-
-  Definition give_state (s : st) (fr : frame) : st :=
-    {| frames := frames s; fns := S (fns s); next_id := next_id s; given := give s fr; inserted := inserted s |}.
-
-  Lemma inv_give (s : st) fr : Inv s -> nth_error (frames s) (fns s) = Some fr -> Inv (give_state s fr).
-  Proof.
-    intros I Hn. destruct I as [I1 I2 I3 I4 I5 I6 I7 I8].
-    assert (Hin : In fr (frames s)) by (eapply nth_error_In; eauto).
-    assert (Hlt : fns s < length (frames s)) by (apply nth_error_Some; congruence).
-    constructor; unfold give_state, give; simpl.
-    - exact I1.
-    - lia.
-    - exact I3.
-    - exact I4.
-    - intros p Hp. apply in_app_or in Hp as [Hp|Hp]; [auto|].
-      apply in_map_iff in Hp as [f [<- _]]. simpl. auto.
-    - intros i fr' Hi Hn'. rewrite given_of_app.
-      destruct (Nat.eq_dec i (fns s)) as [->|Hne].
-      + rewrite Hn in Hn'. injection Hn' as <-. apply incl_appr. rewrite given_of_map_same. apply incl_refl.
-      + apply incl_appl. apply (I6 i fr'); [lia | exact Hn'].
-    - intros fr' Hin'. rewrite given_of_app. apply incl_app; [apply I7; exact Hin'|].
-      destruct (Nat.eq_dec (fid fr) (fid fr')) as [E|E].
-      + assert (fr = fr') by (eapply fid_inj; eauto). subst fr'. rewrite given_of_map_same. apply incl_refl.
-      + rewrite given_of_map_other by exact E. apply incl_nil_l.
-    - exact I8.
-  Qed.
-
-  Lemma view_prefix_incl (s : st) i : Inv s ->
-    incl (concat (view s (firstn (S i) (frames s)))) (prefix_fml (frames s) i).
-  Proof.
-    intros I. unfold view, prefix_fml. apply concat_incl_map. intros fr Hin.
-    apply (inv_live s I). eapply firstn_In; eauto.
-  Qed.
-
-  Lemma simplify_spec fuel : forall (s s' : st) c, Inv s -> simplify early fuel s = (s', c) ->
-    Inv s' /\ map (@fml F) (frames s') = map (@fml F) (frames s) /\
-    (c = true -> ~ sat (assertions s)) /\
-    (c = false -> length (frames s) <= fns s + fuel -> fns s' = length (frames s')).
-  Proof.
-    induction fuel as [|n IH]; intros s s' c I H; simpl in H.
-    - injection H as <- <-. spl; auto; try discriminate. intros _ Hl. pose proof (inv_fns s I). lia.
-    - destruct (nth_error (frames s) (fns s)) as [fr|] eqn:Hn.
-      + pose proof (inv_give s fr I Hn) as I1. fold (give_state s fr) in H.
-        change (frames (give_state s fr)) with (frames s) in H.
-        destruct (early (view (give_state s fr) (firstn (S (fns s)) (frames s)))) eqn:He.
+(* the executable progress test is sound for the measure *)
+Lemma progress_mu n : forall a b, length a <= n -> length b <= n -> progress a b = true -> mu n a < mu n b.
+Proof.
+  induction n as [|m IH]; intros a b Ha Hb H.
+  - destruct a, b; simpl in *; try discriminate; lia.
+  - destruct a as [|x r], b as [|y s]; simpl in H; try discriminate.
+    + simpl. pose proof (pow3_pos m). destruct y; simpl; lia.
 
 Show.
